@@ -14,6 +14,54 @@ ASSUMPTIONS = ['locally drawn SPIs are fresh (no 2^-32 collisions)', 'model kern
 ORACLES = [CP.o_sad_equals_tracked, CP.o_no_escape]
 
 
+def during_ike_rekey(ctx, res):
+    """what happens to CHILD_SAs while an IKE_SA rekey request is outstanding: the request is lost, the peer deletes (hard expiry) or
+    rekeys (soft expiry) a CHILD_SA in the meantime, the retransmitted rekey request then succeeds — whatever was handed over must be
+    what is in the kernel"""
+    for rekeyer in 'AB':
+        for peer_does in ('hard', 'soft', 'hard-both', 'nothing'):
+            for n_kids in (1, 2):
+                conf = {'dpd': 5000, 'ike_lifetime': 100 if rekeyer == 'A' else 5000, 'ike_lifetime_b': 100 if rekeyer == 'B' else 5000}
+                seed = ctx.rng.randrange(1 << 30)
+                with CP.History(seed, trace=ctx.driver is not None, deep=True, **conf) as h:
+                    h.oracles = list(ORACLES)
+                    w = h.w
+                    if not h.establish('A'):
+                        continue
+                    for k in range(n_kids - 1):
+                        h.op('acquire', 'A', 4100 + k)
+                        h.settle()
+                    h.op('tick', 106)                       # the lifetime of the rekeying end has elapsed: its request is in flight
+                    for dg in list(w.net):
+                        h.op('drop', dg.id)                 # ... and lost
+                    other = w.B if rekeyer == 'A' else w.A
+                    kids = [c for x in other.sas() for c in x.child_sas]
+                    if peer_does != 'nothing' and kids:
+                        h.op('expire', other.name, kids[0].inbound_spi, peer_does != 'soft')
+                        if peer_does == 'hard-both' and len(kids) > 1:
+                            pass
+                        n = 0
+                        while w.net and n < 12:             # the exchange about the CHILD_SA completes while the rekey request waits
+                            h.op('deliver', w.net[0].id)
+                            n += 1
+                        if peer_does == 'hard-both' and len(kids) > 1:
+                            h.op('expire', other.name, kids[1].inbound_spi, True)
+                            n = 0
+                            while w.net and n < 12:
+                                h.op('deliver', w.net[0].id)
+                                n += 1
+                    h.op('tick', 3)                          # retransmission of the rekey request
+                    h.settle()
+                    res.evaluations += len(h.ops)
+                    res.nontrivial.add(('during-ike-rekey', rekeyer, peer_does, n_kids))
+                    res.count('directed:during-ike-rekey:%s' % peer_does)
+                    for key, what, at in h.findings[:2]:
+                        res.fail(key, what, {'seed': seed, 'conf': conf, 'faults': None, 'ops': S.ser_ops(h.ops[:at + 1]), 'oracle': key})
+                    if h.tr is not None:
+                        h.tr.close()
+                        S.deep_check(ctx, res, h.tr)
+
+
 def run(ctx):
     res = Result()
     res.rule = ('seeded histories of the two-endpoint world (acquire, soft/hard expire, ticks incl. DPD and lifetime expiry, '
@@ -23,6 +71,7 @@ def run(ctx):
     # an authentic peer that says unusual things (error replies to an IKE_SA rekey, DELETE for foreign SPIs, ...)
     import rogue
     rogue.campaign(ctx, res, ctx.scale(12, 200), 50, oracles=ORACLES)
+    during_ike_rekey(ctx, res)
     return res
 
 
